@@ -251,9 +251,12 @@ harness!(and_keep, 2, {
 harness!(or_two, 2, {
     let mut input = In::any();
     let p0 = input.pos;
-    // `or` has no undo of its own: it is specified for a backtracking left alternative
+    // "choice returns the first alternative that succeeds FROM THE ORIGINAL POSITION": also a left alternative that does not
+    // undo its own soft failure (and_then is documented not to backtrack) is undone by `or` itself, as OrParser does
+    // (defect 60: OrParserNoBox started the second alternative wherever the first one had stopped)
     let rbt = vs::bool();
-    let mut p = Stub::new(1).or(stub(2, rbt));
+    let lbt = vs::bool();
+    let mut p = stub(1, lbt).or(stub(2, rbt));
     let r = p.parse(&mut input);
     common(&input, p0, &r);
     let l = input.log[0];
@@ -280,6 +283,7 @@ harness!(or_two, 2, {
     }
     reach!(r.is_ok() && input.n == 2);
     reach!(is_soft(&r));
+    reach!(!lbt && input.n == 2 && input.log[0].end > p0 && r.is_ok());
 });
 
 //# harness or_boxed tier=quick label=bounded(alternatives<=4) props=C20 fn=rusty_pc/src/or.rs::OrParser::parse
